@@ -78,7 +78,7 @@ Definition encode_file (f : ofile) : list Z :=
 
 (* ------------------------------------------------------------------ meaning *)
 (* position of slot i of n in measure m *)
-Definition position (m i n : Z) : Q := inject_Z m + inject_Z i / inject_Z n.
+Definition position (m i n : Z) : Q := Qred (inject_Z m + inject_Z i / inject_Z n).
 
 (* time of position p: piecewise-linear integration of beat length over the tempo segments;
    [tempos] = (position, bpm) sorted by position; 4 beats per measure *)
@@ -268,14 +268,6 @@ Definition hit_close (tol : Q) (a b : hitrow) : bool :=
 Definition hold_close (tol : Q) (a b : holdrow) : bool :=
   (l_col a =? l_col b)%Z && q_close tol (l_off a) (l_off b) && q_close (tol + tol) (l_len a) (l_len b)
   && (l_vol a =? l_vol b)%Z && (l_pan a =? l_pan b)%Z.
-(* correspondence only, rounded stream: the implementation may have truncated the length (see
-   O2J.hold_length); whether it did depends on a float being exactly integral, which exact and rounded
-   arithmetic may resolve differently, so an integral length less than 1 ms short is accepted too *)
-Definition hold_close_relaxed (tol : Q) (a b : holdrow) : bool :=
-  (l_col a =? l_col b)%Z && q_close tol (l_off a) (l_off b)
-  && (q_close (tol + tol) (l_len a) (l_len b)
-      || (is_integral (l_len b) && Qlt_bool (Qabs.Qabs (l_len a - l_len b)) (1 + tol + tol)))
-  && (l_vol a =? l_vol b)%Z && (l_pan a =? l_pan b)%Z.
 Definition bpm_close (tol : Q) (a b : bpmrow) : bool :=
   q_close tol (b_off a) (b_off b) && Qeq_bool (b_bpm a) (b_bpm b).
 
@@ -305,9 +297,6 @@ Fixpoint maps_close_gen (mc : omap -> omap -> bool) (a b : list omap) : bool :=
 Definition maps_close (tol : Q) := maps_close_gen (map_close tol).
 Definition oset_close (tol : Q) (a b : oset) : bool :=
   hdr_eqb (os_hdr a) (os_hdr b) && maps_close tol (os_maps a) (os_maps b).
-Definition oset_close_relaxed (tol : Q) (a b : oset) : bool :=
-  hdr_eqb (os_hdr a) (os_hdr b)
-  && maps_close_gen (map_close_gen (hold_close_relaxed tol) tol) (os_maps a) (os_maps b).
 
 (* the oracle: the output is what the file denotes (rows up to permutation, times within tol) *)
 Definition specb (tol : Q) (f : ofile) (out : option oset) : bool :=
